@@ -116,3 +116,18 @@ Qed.
 
 Lemma quiet_no_change c : cutoff_after Quiet c = c /\ propagates Quiet = false.
 Proof. split; reflexivity. Qed.
+
+(* ---- the errno / SSL-code conflation on TLS sites, exactly ---- *)
+Definition tls_deviation_check : bool :=
+  forallb (fun t => forallb (fun n =>
+     Bool.eqb (action_eqb (classify t (oserr n)) (if memz n LOSS then Cutoff else Raise))
+              (negb (memz n TLS_CODES))) all_errnos) tls_sites.
+
+Lemma tls_conflation_exactly : forall t n, In t tls_sites -> In n all_errnos ->
+  action_eqb (classify t (oserr n)) (if memz n LOSS then Cutoff else Raise) = negb (memz n TLS_CODES).
+Proof.
+  assert (H : tls_deviation_check = true) by (vm_compute; reflexivity).
+  intros t n Ht Hn. unfold tls_deviation_check in H. rewrite forallb_forall in H.
+  specialize (H t Ht). rewrite forallb_forall in H. specialize (H n Hn).
+  apply Bool.eqb_prop in H. exact H.
+Qed.
